@@ -51,6 +51,8 @@ func (g *gen) makeScript() rscript {
 		s.mutation, s.version = 6, 3
 	case 5:
 		s.mutation = 25
+	case 9:
+		s.mutation, s.version = 26, 3
 	}
 	base := 2
 	if s.version == 3 {
@@ -271,6 +273,34 @@ func (g *gen) craftInjection(sc rscript, pending, seen, sentByTarget [][]byte, t
 			return []byte(fmt.Sprintf("?OTR|%08x|00000000,00002,00003,abcd,", 0x777+uint32(g.r.Intn(1000)))), "stray-out-of-sequence-fragment-before-binding"
 		}
 		return []byte("?OTR,00002,00003,abcd,"), "stray-out-of-sequence-fragment-before-binding"
+	case 26: // an OTRv3 fragment whose header carries an invalid instance tag (sender tag below 0x100, or
+		// receiver tag in 1..0xff): rejected as an invalid fragment; the malformed-message error reply (both
+		// parties have an error message handler) belongs to the rejection itself, not to a later answer
+		if sc.version != 3 {
+			return nil, ""
+		}
+		st, rt := ts.TheirTag, ts.OurTag
+		if st == 0 {
+			st = 0x777 + uint32(g.r.Intn(1000))
+		}
+		if g.r.Intn(3) == 0 {
+			rt = 0
+		}
+		what := "fragment-with-malformed-sender-tag"
+		if g.r.Intn(2) == 0 {
+			st = uint32(g.r.Intn(0x100))
+		} else {
+			rt, what = 1+uint32(g.r.Intn(0xff)), "fragment-with-malformed-receiver-tag"
+		}
+		total := 2 + g.r.Intn(4)
+		idx := 1 + g.r.Intn(total)
+		piece := []byte("abcd")
+		if base != nil && len(base) > 12 && !bytes.Contains(base, []byte(",")) {
+			// a piece of genuine traffic
+			k := len(base) / total
+			piece = base[(idx-1)*k : idx*k]
+		}
+		return []byte(fmt.Sprintf("?OTR|%08x|%08x,%05d,%05d,%s,", st, rt, idx, total, piece)), what
 	case 24: // a genuine, not yet delivered OTRv3 data message with the receiver instance tag set to zero
 		// ("any instance"): the tag filter lets it through, the authenticator covers the header
 		if sc.version != 3 {
@@ -420,8 +450,15 @@ func (g *gen) runScript(w *world, sc rscript, inject bool) (obs []string, injInf
 	b := w.newParty(partyCfg{policies: sc.polB, keyIdx: 1, errh: true})
 	l := &link{w: w, a: a, b: b}
 	seenA, seenB := [][]byte{}, [][]byte{}
-	rec := func(tag string, plain []byte, err error, p *party, evs string) {
-		obs = append(obs, fmt.Sprintf("%s plain=%s err=%s ev=%s encA=%v encB=%v", tag, plainStr(plain), otr3.VerifErrClass(err), evs, a.c.IsEncrypted(), b.c.IsEncrypted()))
+	rec := func(tag string, plain []byte, err error, p *party, evs string, ts []otr3.ValidMessage) {
+		// what the party sends in answer belongs to the observation: how many messages, how many of them error replies
+		nerr := 0
+		for _, t := range ts {
+			if isErrorReply(t) {
+				nerr++
+			}
+		}
+		obs = append(obs, fmt.Sprintf("%s plain=%s err=%s ev=%s encA=%v encB=%v sends=%d errorReplies=%d", tag, plainStr(plain), otr3.VerifErrClass(err), evs, a.c.IsEncrypted(), b.c.IsEncrypted(), len(ts), nerr))
 	}
 	deliver := func(toB bool, tag string) {
 		q, p := &l.qab, b
@@ -439,7 +476,7 @@ func (g *gen) runScript(w *world, sc rscript, inject bool) (obs []string, injInf
 		plain, ts, err, _ := w.recv(p, m)
 		// events were drained by w.recv into the op line; recover them from the last impl line is
 		// unnecessary: we record the snapshot of what matters through the result strings below
-		rec(tag, plain, err, p, lastEvents)
+		rec(tag, plain, err, p, lastEvents, ts)
 		l.enqueue(p, ts)
 		if toB {
 			seenB = append(seenB, m)
@@ -530,7 +567,7 @@ func (g *gen) runScript(w *world, sc rscript, inject bool) (obs []string, injInf
 				p = b
 			}
 			ts, err := w.send(p, st.text)
-			rec(st.kind, nil, err, p, lastEvents)
+			rec(st.kind, nil, err, p, lastEvents, ts)
 			l.enqueue(p, ts)
 		case "dAB":
 			deliver(true, "dAB")
@@ -540,11 +577,11 @@ func (g *gen) runScript(w *world, sc rscript, inject bool) (obs []string, injInf
 			w.tick(st.n)
 		case "smpA":
 			ts, err := w.smpStart(a, "", []byte("sekrit"))
-			rec("smpA", nil, err, a, lastEvents)
+			rec("smpA", nil, err, a, lastEvents, ts)
 			l.enqueue(a, ts)
 		case "smpansB":
 			ts, err := w.smpSecret(b, []byte("sekrit"))
-			rec("smpansB", nil, err, b, lastEvents)
+			rec("smpansB", nil, err, b, lastEvents, ts)
 			l.enqueue(b, ts)
 		}
 	}
@@ -732,6 +769,22 @@ func (g *gen) pendingResendAfterRejectedSig(w *world) {
 	}
 }
 
+// two observations of the same step that differ only in what the party sends, the second with more error replies
+func extraErrorReply(without, with string) bool {
+	i0, i1 := strings.LastIndex(without, " sends="), strings.LastIndex(with, " sends=")
+	if i0 < 0 || i1 < 0 || without[:i0] != with[:i1] {
+		return false
+	}
+	var s0, e0, s1, e1 int
+	if n, _ := fmt.Sscanf(without[i0:], " sends=%d errorReplies=%d", &s0, &e0); n != 2 {
+		return false
+	}
+	if n, _ := fmt.Sscanf(with[i1:], " sends=%d errorReplies=%d", &s1, &e1); n != 2 {
+		return false
+	}
+	return e1 > e0 && s1-s0 == e1-e0
+}
+
 func init() {
 	profiles["reject"] = func(seed int64, n int, out *emitter, extra map[string]interface{}) map[string]int {
 		g := &gen{r: rand.New(rand.NewSource(seed)), out: out, dist: map[string]int{}}
@@ -768,6 +821,12 @@ func init() {
 			}
 			for k := range obs0 {
 				if obs0[k] != obs1[k] {
+					if extraErrorReply(obs0[k], obs1[k]) && strings.Contains(info, " send=0 ") {
+						// the rejection itself sent nothing, and the next genuine step of the continuation is answered
+						// with an extra "?OTR Error:" message: the reply to the rejected message came out late
+						olog.viol("C06", "rejected-message-reply-delayed", fmt.Sprintf("after rejected %s (target state change: %s) a later genuine step sends an additional OTR error message | step %d %.120s… | without:%s | with:%s", info, eff, k, obs0[k], obs0[k][strings.LastIndex(obs0[k], " sends="):], obs1[k][strings.LastIndex(obs1[k], " sends="):]))
+						break
+					}
 					olog.viol("C06", "rejected-message-changes:"+eff, fmt.Sprintf("after rejected %s (target state change: %s) | step %d without: %.200s | with: %.200s", info, eff, k, obs0[k], obs1[k]))
 					if os.Getenv("VERIF_DEBUG") != "" {
 						fmt.Fprintf(os.Stderr, "=== script inject@%d target %s\n", sc.injectAt, sc.target)
